@@ -1298,7 +1298,6 @@ func (c *Check) restartAfterHandler(rule string) {
 	c.floor(rule, n, 1, "hold-timer restarts in the session loop")
 }
 
-
 // optionsApplied: a PeerOption's apply runs the function it was built with
 // (an option that is accepted and silently not applied leaves the default).
 func (c *Check) optionsApplied(rule string) {
